@@ -305,7 +305,7 @@ def e2e_job(job):
                     if i1 != i2 or len(f1) != len(f2) or not all(eng.valid(x.e == y.e) for x, y in zip(f1, f2)):
                         bad.append(('OVLID', f'{sn[i].name}: overflow indicator clear but waveform differs from the unlimited-capacity run'))
         tc = z3.Real('tcap_e2e')
-        if not bad and ('BOOL' in lemmas or 'HAZ' in lemmas):
+        if not bad and ('BOOL' in lemmas or 'HAZ' in lemmas) and sum(ch in 'RF' for ch in st) <= 2:          # (more input transitions multiply the capture paths: E6 took 300 s)
             # the same results when the capture time argument is a finite symbolic time: initial / final value, arrival times and the
             # overflow indicator describe the whole waveform, whatever the observation time
             eng.assume(tc >= -200, tc <= 400)
